@@ -372,6 +372,26 @@ func c08CheckPayload(c *c08Codec, root reflect.Value, leafs []c08Leaf, vals []re
 	if !c08Eq(reflect.ValueOf(c.Orig(back)), reflect.ValueOf(c.Orig(p))) {
 		return "proto-roundtrip-differs:" + c.Name + ":" + seg, desc
 	}
+	// the legacy wire form of the same payload (what an old sender puts on the wire: scope_spans / scope_logs /
+	// scope_metrics under their deprecated field number 1000) is one of "every byte string offered to an unmarshaler":
+	// it decodes, so it must re-encode to a fixed point, and the size reported for what it decoded to must be the length
+	// of its encoding. (Whether the decoder migrates the field - the request wrappers and JSON readers do, the plain
+	// protobuf unmarshalers keep it as it is - is not part of the statement and not judged.)
+	if lb, ok := c08LegacyBytes(c, pb); ok {
+		lback, err := c.UnmarshalPB(lb)
+		if err != nil {
+			return "legacy-encoding-rejected:" + c.Name + ":" + seg, desc + err.Error()
+		}
+		if sig, what := c08CheckBytes(c, lb, false); sig != "" {
+			return "legacy-encoding:" + sig, desc + what
+		}
+		if c.Size != nil {
+			e1, _ := c.MarshalProto(lback)
+			if n := c.Size(lback); n != len(e1) {
+				return "size-mismatch:" + c.Name + ":" + seg, fmt.Sprintf("%s (decoded from the legacy wire form) Size()=%d len(encoding)=%d", desc, n, len(e1))
+			}
+		}
+	}
 	js, err := c.MarshalJSON(p)
 	if err != nil {
 		return "json-marshal-error:" + c.Name + ":" + seg, desc + err.Error()
@@ -681,4 +701,64 @@ func c08Run(t *testing.T, ctx *vr.Ctx, c *c08Codec) {
 	recJ("", 0)
 	ctx.R.States = ctx.R.Evals
 	_ = sort.Strings
+}
+
+
+// c08LegacyBytes re-encodes pb with every non-empty repeated field X that has a sibling DeprecatedX moved to that sibling
+// (generated Marshal of the protobuf struct itself; no migration code involved). ok=false when the payload has no such field
+// or nothing to move.
+func c08LegacyBytes(c *c08Codec, pb []byte) ([]byte, bool) {
+	x := reflect.New(c.Root)
+	um, ok := x.Interface().(interface{ Unmarshal([]byte) error })
+	if !ok || um.Unmarshal(pb) != nil {
+		return nil, false
+	}
+	moved := false
+	var walk func(v reflect.Value, depth int)
+	walk = func(v reflect.Value, depth int) {
+		if depth > 8 {
+			return
+		}
+		switch v.Kind() {
+		case reflect.Ptr:
+			if !v.IsNil() {
+				walk(v.Elem(), depth+1)
+			}
+		case reflect.Slice:
+			if v.Type().Elem().Kind() != reflect.Uint8 {
+				for i := 0; i < v.Len(); i++ {
+					walk(v.Index(i), depth+1)
+				}
+			}
+		case reflect.Struct:
+			t := v.Type()
+			for i := 0; i < t.NumField(); i++ {
+				f := t.Field(i)
+				if strings.HasPrefix(f.Name, "Deprecated") {
+					if sib, ok := t.FieldByName(strings.TrimPrefix(f.Name, "Deprecated")); ok && sib.Type == f.Type && f.Type.Kind() == reflect.Slice {
+						sv := v.FieldByIndex(sib.Index)
+						if sv.Len() > 0 {
+							v.Field(i).Set(sv)
+							sv.Set(reflect.Zero(sib.Type))
+							moved = true
+						}
+					}
+					continue
+				}
+				if f.IsExported() && !strings.HasPrefix(f.Name, "XXX_") {
+					walk(v.Field(i), depth+1)
+				}
+			}
+		}
+	}
+	walk(x, 0)
+	if !moved {
+		return nil, false
+	}
+	m, ok := x.Interface().(interface{ Marshal() ([]byte, error) })
+	if !ok {
+		return nil, false
+	}
+	b, err := m.Marshal()
+	return b, err == nil
 }
